@@ -953,3 +953,50 @@ CLICTU_CODES = {1: "malformed record", 380: "cmr-ctu failed on a well-formed 0/1
                 382: "cmr-ctu output does not follow the matrix format", 383: "cmr-ctu output is not the requested complement",
                 384: "cmr-ctu -N output is not a non-TU complement of the input",
                 385: "cmr-ctu -N wrote a matrix although the input is complement totally unimodular"}
+
+
+def reprt_lines(rng, count):
+    """cases of the `reprt` api (format of `repmat`): (di)graphs with 6..40 nodes — random multigraphs with loops and parallel
+    edges, and graphs glued from 3-connected pieces, polygons and bonds — each with a random spanning forest offered in
+    random order and the remaining edges as coforest in random order; a third signed with random reversals"""
+    out = []
+    for i in range(count):
+        if i % 2 == 0:
+            nv, edges = glued_graph(rng, 2 + rng.below(5))
+            edges = list(edges)
+            for _ in range(rng.below(6)):
+                edges.append((rng.below(nv), rng.below(nv)))
+        else:
+            nv = 6 + rng.below(35)
+            ne = nv + 2 + rng.below(2 * nv)
+            edges = [(rng.below(nv), rng.below(nv)) for _ in range(ne)]
+        ne = len(edges)
+        signed = 1 if i % 3 == 0 else 0
+        if signed:
+            edges = [(v, u) if rng.below(2) else (u, v) for (u, v) in edges]
+        rev = [e for e in range(ne) if signed and rng.below(4) == 0]
+        comp = list(range(nv))
+
+        def find(x):
+            while comp[x] != x:
+                comp[x] = comp[comp[x]]
+                x = comp[x]
+            return x
+        forest = []
+        for e in rng.shuffle(list(range(ne))):
+            a, b = find(edges[e][0]), find(edges[e][1])
+            if a != b:
+                comp[a] = b
+                forest.append(e)
+        rng.shuffle(forest)
+        fs = set(forest)
+        co = rng.shuffle([e for e in range(ne) if e not in fs])
+        out.append("%d %d %d %s %d %s 1 %d %s 1 %d %s" % (
+            signed, nv, ne, " ".join("%d %d" % e for e in edges), len(rev), " ".join(map(str, rev)),
+            len(forest), " ".join(map(str, forest)), len(co), " ".join(map(str, co))))
+    return out
+
+
+REPRT_CODES = {1: "malformed record", 390: "matrix construction failed", 391: "recognition returned an error",
+               392: "the constructed matrix is not recognized as graphic / network",
+               393: "construction from the recognized graph failed", 394: "matrix -> graph -> matrix is not the identity"}
